@@ -942,4 +942,32 @@ theorem sn_ensure_fst (fs : FS) (work final : Str) :
     | cont => exact Or.inr rfl
     | skipDir => exact Or.inr rfl
 
+/-! ## removal really removes -/
+
+theorem sn_removeAll_eq {W : PPath} {fs : FS} {path : Str} (h : SanAt W fs path) (hne : pathSegs path ≠ [])
+    {node : Node} (hl : fs.lstat path = .ok node) : fs.removeAll path = fs.delTree (pathSegs path) := by
+  unfold FS.removeAll
+  rw [(h.lstat hl).1]
+  simp only [hne, if_false]
+
+theorem sn_removeAll_gone {W : PPath} {fs : FS} {path : Str} (h : SanAt W fs path) (hne : pathSegs path ≠ [])
+    {node : Node} (hl : fs.lstat path = .ok node) :
+    ∀ q, pathSegs path <+: q → (fs.removeAll path).get q = none := by
+  intro q hq
+  rw [sn_removeAll_eq h hne hl, sn_get_delTree, if_pos hq]
+
+/-- a clean path whose parent's components are real directories -/
+theorem sanAt_of_realParent {fs : FS} {path : Str} (hc : AbsClean path)
+    (hreal : RealDir fs (pathSegs path).dropLast) : SanAt [] fs path := by
+  refine ⟨hc, List.nil_prefix, ?_⟩
+  intro q hq hne t hl
+  have hq' : q <+: (pathSegs path).dropLast := by
+    obtain ⟨x, hx⟩ := hq
+    have hxne : x ≠ [] := by
+      intro e; apply hne; rw [← hx, e]; simp
+    rw [← hx, List.dropLast_append_of_ne_nil hxne]
+    exact List.prefix_append _ _
+  obtain ⟨a, b, hd⟩ := hreal q hq'
+  rw [hd] at hl; cases hl
+
 end Slug
